@@ -492,6 +492,25 @@ def search(ctx, S, M):
                 if v2 is not None and repr(v2) not in seen2 and len(seen2) < 5:
                     seen2.add(repr(v2))
                     test([('obs',), a, ('obs',), (a[0], v2)], 'same-twice')
+    # swap a persistent object out, change anything, swap the SAME object back: it must not come back stale
+    swaps = [(('beam.attenuator(pool-object)', 0), ('beam.attenuator(pool-object)', 1)),
+             (('plasma.models(pool-objects)', [0, 1, 2, 3, 4]), ('plasma.models(pool-objects)', [3])),
+             (('beam.models(pool-objects)', [0, 1]), ('beam.models(pool-objects)', [1]))]
+    for a in singles:
+        if a[0].startswith('rejected:') or a[0] in NOARG:
+            continue
+        for first, other in swaps:
+            if a[0] == first[0]:
+                continue
+            if ctx.tier == 'quick' and first[0] != 'beam.attenuator(pool-object)' and ctx.rng.random() > 0.5:
+                continue
+            cfg = copy.deepcopy(BASE)
+            M[first[0]][2](cfg, copy.deepcopy(first[1]))
+            M[other[0]][2](cfg, copy.deepcopy(other[1]))
+            va = M[a[0]][0](ctx.rng, cfg)              # a value that is legal in the configuration it is applied to
+            if va is None:
+                continue
+            test([first, ('obs',), other, (a[0], va), first], 'swap-out-change-swap-back')
     for a in singles:
         for b in singles:
             if a[0] == b[0]:
